@@ -319,6 +319,7 @@ func checkClientRead(c Framing) error {
 			return buf[:n], nil, nil
 		}
 	}
+	var kept [][]byte
 	for i, body := range bodies {
 		end := pos + 2 + len(body)
 		wantOK := c.Fault == "" || end <= c.FaultAt
@@ -346,7 +347,15 @@ func checkClientRead(c Framing) error {
 		} else if !bytes.Equal(got, body) {
 			return fmt.Errorf("message %d: %s returned %d octets %s, sent %d octets %s (first difference at %d)", i, c.API, len(got), hexHead(got), len(body), hexHead(body), firstDiff(got, body))
 		}
+		if c.API != "ReadMsg" {
+			kept = append(kept, got) // "to be parsed with Msg.Unpack later on": a later read must not change it
+		}
 		pos = end
+	}
+	for i, p := range kept {
+		if !bytes.Equal(p, bodies[i]) {
+			return fmt.Errorf("message %d: the slice %s returned changed while later messages were read (first difference at %d)", i, c.API, firstDiff(p, bodies[i]))
+		}
 	}
 	// after the last message the stream is at EOF (or at the fault): an error, not a message
 	got, m, err := read(len(bodies))
